@@ -14,13 +14,28 @@ func point(what string) {
 	}
 }
 
+// sync gives the atomic variable at p acquire/release semantics for the happens-before race detector.
+func sync(p unsafe.Pointer) { vrt.AtomicSync(p) }
+
 type Int32 struct{ v int32 }
 
-func (x *Int32) Load() int32       { point("load"); vrt.AbsorbInt(int64(x.v)); return x.v }
-func (x *Int32) Store(v int32)     { point("store"); x.v = v }
-func (x *Int32) Add(d int32) int32 { point("add"); x.v += d; vrt.AbsorbInt(int64(x.v)); return x.v }
+func (x *Int32) Load() int32 {
+	point("load")
+	sync(unsafe.Pointer(x))
+	vrt.AbsorbInt(int64(x.v))
+	return x.v
+}
+func (x *Int32) Store(v int32) { point("store"); sync(unsafe.Pointer(x)); x.v = v }
+func (x *Int32) Add(d int32) int32 {
+	point("add")
+	sync(unsafe.Pointer(x))
+	x.v += d
+	vrt.AbsorbInt(int64(x.v))
+	return x.v
+}
 func (x *Int32) Swap(v int32) int32 {
 	point("swap")
+	sync(unsafe.Pointer(x))
 	o := x.v
 	x.v = v
 	vrt.AbsorbInt(int64(o))
@@ -28,6 +43,7 @@ func (x *Int32) Swap(v int32) int32 {
 }
 func (x *Int32) CompareAndSwap(o, n int32) bool {
 	point("cas")
+	sync(unsafe.Pointer(x))
 	if x.v == o {
 		x.v = n
 		vrt.AbsorbInt(1)
@@ -39,12 +55,26 @@ func (x *Int32) CompareAndSwap(o, n int32) bool {
 
 type Int64 struct{ v int64 }
 
-func (x *Int64) Load() int64        { point("load"); vrt.AbsorbInt(x.v); return x.v }
-func (x *Int64) Store(v int64)      { point("store"); x.v = v }
-func (x *Int64) Add(d int64) int64  { point("add"); x.v += d; vrt.AbsorbInt(x.v); return x.v }
-func (x *Int64) Swap(v int64) int64 { point("swap"); o := x.v; x.v = v; vrt.AbsorbInt(o); return o }
+func (x *Int64) Load() int64   { point("load"); sync(unsafe.Pointer(x)); vrt.AbsorbInt(x.v); return x.v }
+func (x *Int64) Store(v int64) { point("store"); sync(unsafe.Pointer(x)); x.v = v }
+func (x *Int64) Add(d int64) int64 {
+	point("add")
+	sync(unsafe.Pointer(x))
+	x.v += d
+	vrt.AbsorbInt(x.v)
+	return x.v
+}
+func (x *Int64) Swap(v int64) int64 {
+	point("swap")
+	sync(unsafe.Pointer(x))
+	o := x.v
+	x.v = v
+	vrt.AbsorbInt(o)
+	return o
+}
 func (x *Int64) CompareAndSwap(o, n int64) bool {
 	point("cas")
+	sync(unsafe.Pointer(x))
 	if x.v == o {
 		x.v = n
 		vrt.AbsorbInt(1)
@@ -56,11 +86,23 @@ func (x *Int64) CompareAndSwap(o, n int64) bool {
 
 type Uint32 struct{ v uint32 }
 
-func (x *Uint32) Load() uint32        { point("load"); vrt.AbsorbInt(int64(x.v)); return x.v }
-func (x *Uint32) Store(v uint32)      { point("store"); x.v = v }
-func (x *Uint32) Add(d uint32) uint32 { point("add"); x.v += d; vrt.AbsorbInt(int64(x.v)); return x.v }
+func (x *Uint32) Load() uint32 {
+	point("load")
+	sync(unsafe.Pointer(x))
+	vrt.AbsorbInt(int64(x.v))
+	return x.v
+}
+func (x *Uint32) Store(v uint32) { point("store"); sync(unsafe.Pointer(x)); x.v = v }
+func (x *Uint32) Add(d uint32) uint32 {
+	point("add")
+	sync(unsafe.Pointer(x))
+	x.v += d
+	vrt.AbsorbInt(int64(x.v))
+	return x.v
+}
 func (x *Uint32) Swap(v uint32) uint32 {
 	point("swap")
+	sync(unsafe.Pointer(x))
 	o := x.v
 	x.v = v
 	vrt.AbsorbInt(int64(o))
@@ -68,6 +110,7 @@ func (x *Uint32) Swap(v uint32) uint32 {
 }
 func (x *Uint32) CompareAndSwap(o, n uint32) bool {
 	point("cas")
+	sync(unsafe.Pointer(x))
 	if x.v == o {
 		x.v = n
 		vrt.AbsorbInt(1)
@@ -79,11 +122,23 @@ func (x *Uint32) CompareAndSwap(o, n uint32) bool {
 
 type Uint64 struct{ v uint64 }
 
-func (x *Uint64) Load() uint64        { point("load"); vrt.AbsorbInt(int64(x.v)); return x.v }
-func (x *Uint64) Store(v uint64)      { point("store"); x.v = v }
-func (x *Uint64) Add(d uint64) uint64 { point("add"); x.v += d; vrt.AbsorbInt(int64(x.v)); return x.v }
+func (x *Uint64) Load() uint64 {
+	point("load")
+	sync(unsafe.Pointer(x))
+	vrt.AbsorbInt(int64(x.v))
+	return x.v
+}
+func (x *Uint64) Store(v uint64) { point("store"); sync(unsafe.Pointer(x)); x.v = v }
+func (x *Uint64) Add(d uint64) uint64 {
+	point("add")
+	sync(unsafe.Pointer(x))
+	x.v += d
+	vrt.AbsorbInt(int64(x.v))
+	return x.v
+}
 func (x *Uint64) Swap(v uint64) uint64 {
 	point("swap")
+	sync(unsafe.Pointer(x))
 	o := x.v
 	x.v = v
 	vrt.AbsorbInt(int64(o))
@@ -91,6 +146,7 @@ func (x *Uint64) Swap(v uint64) uint64 {
 }
 func (x *Uint64) CompareAndSwap(o, n uint64) bool {
 	point("cas")
+	sync(unsafe.Pointer(x))
 	if x.v == o {
 		x.v = n
 		vrt.AbsorbInt(1)
@@ -108,11 +164,24 @@ func b2i(b bool) int64 {
 	}
 	return 0
 }
-func (x *Bool) Load() bool       { point("load"); vrt.AbsorbInt(b2i(x.v)); return x.v }
-func (x *Bool) Store(v bool)     { point("store"); x.v = v }
-func (x *Bool) Swap(v bool) bool { point("swap"); o := x.v; x.v = v; vrt.AbsorbInt(b2i(o)); return o }
+func (x *Bool) Load() bool {
+	point("load")
+	sync(unsafe.Pointer(x))
+	vrt.AbsorbInt(b2i(x.v))
+	return x.v
+}
+func (x *Bool) Store(v bool) { point("store"); sync(unsafe.Pointer(x)); x.v = v }
+func (x *Bool) Swap(v bool) bool {
+	point("swap")
+	sync(unsafe.Pointer(x))
+	o := x.v
+	x.v = v
+	vrt.AbsorbInt(b2i(o))
+	return o
+}
 func (x *Bool) CompareAndSwap(o, n bool) bool {
 	point("cas")
+	sync(unsafe.Pointer(x))
 	if x.v == o {
 		x.v = n
 		vrt.AbsorbInt(1)
@@ -126,13 +195,21 @@ type Pointer[T any] struct{ p *T }
 
 func (x *Pointer[T]) Load() *T {
 	point("load")
+	sync(unsafe.Pointer(x))
 	vrt.AbsorbInt(int64(uintptr(unsafe.Pointer(x.p)) & 1))
 	return x.p
 }
-func (x *Pointer[T]) Store(p *T)   { point("store"); x.p = p }
-func (x *Pointer[T]) Swap(p *T) *T { point("swap"); o := x.p; x.p = p; return o }
+func (x *Pointer[T]) Store(p *T) { point("store"); sync(unsafe.Pointer(x)); x.p = p }
+func (x *Pointer[T]) Swap(p *T) *T {
+	point("swap")
+	sync(unsafe.Pointer(x))
+	o := x.p
+	x.p = p
+	return o
+}
 func (x *Pointer[T]) CompareAndSwap(o, n *T) bool {
 	point("cas")
+	sync(unsafe.Pointer(x))
 	if x.p == o {
 		x.p = n
 		vrt.AbsorbInt(1)
@@ -144,14 +221,26 @@ func (x *Pointer[T]) CompareAndSwap(o, n *T) bool {
 
 type Value struct{ v any }
 
-func (x *Value) Load() any   { point("load"); return x.v }
-func (x *Value) Store(v any) { point("store"); x.v = v }
+func (x *Value) Load() any   { point("load"); sync(unsafe.Pointer(x)); return x.v }
+func (x *Value) Store(v any) { point("store"); sync(unsafe.Pointer(x)); x.v = v }
 
-func LoadInt32(p *int32) int32         { point("load"); vrt.AbsorbInt(int64(*p)); return *p }
-func StoreInt32(p *int32, v int32)     { point("store"); *p = v }
-func AddInt32(p *int32, d int32) int32 { point("add"); *p += d; vrt.AbsorbInt(int64(*p)); return *p }
+func LoadInt32(p *int32) int32 {
+	point("load")
+	sync(unsafe.Pointer(p))
+	vrt.AbsorbInt(int64(*p))
+	return *p
+}
+func StoreInt32(p *int32, v int32) { point("store"); sync(unsafe.Pointer(p)); *p = v }
+func AddInt32(p *int32, d int32) int32 {
+	point("add")
+	sync(unsafe.Pointer(p))
+	*p += d
+	vrt.AbsorbInt(int64(*p))
+	return *p
+}
 func CompareAndSwapInt32(p *int32, o, n int32) bool {
 	point("cas")
+	sync(unsafe.Pointer(p))
 	if *p == o {
 		*p = n
 		vrt.AbsorbInt(1)
@@ -160,11 +249,18 @@ func CompareAndSwapInt32(p *int32, o, n int32) bool {
 	vrt.AbsorbInt(0)
 	return false
 }
-func LoadInt64(p *int64) int64         { point("load"); vrt.AbsorbInt(*p); return *p }
-func StoreInt64(p *int64, v int64)     { point("store"); *p = v }
-func AddInt64(p *int64, d int64) int64 { point("add"); *p += d; vrt.AbsorbInt(*p); return *p }
+func LoadInt64(p *int64) int64     { point("load"); sync(unsafe.Pointer(p)); vrt.AbsorbInt(*p); return *p }
+func StoreInt64(p *int64, v int64) { point("store"); sync(unsafe.Pointer(p)); *p = v }
+func AddInt64(p *int64, d int64) int64 {
+	point("add")
+	sync(unsafe.Pointer(p))
+	*p += d
+	vrt.AbsorbInt(*p)
+	return *p
+}
 func CompareAndSwapInt64(p *int64, o, n int64) bool {
 	point("cas")
+	sync(unsafe.Pointer(p))
 	if *p == o {
 		*p = n
 		vrt.AbsorbInt(1)
@@ -173,16 +269,23 @@ func CompareAndSwapInt64(p *int64, o, n int64) bool {
 	vrt.AbsorbInt(0)
 	return false
 }
-func LoadUint32(p *uint32) uint32     { point("load"); vrt.AbsorbInt(int64(*p)); return *p }
-func StoreUint32(p *uint32, v uint32) { point("store"); *p = v }
+func LoadUint32(p *uint32) uint32 {
+	point("load")
+	sync(unsafe.Pointer(p))
+	vrt.AbsorbInt(int64(*p))
+	return *p
+}
+func StoreUint32(p *uint32, v uint32) { point("store"); sync(unsafe.Pointer(p)); *p = v }
 func AddUint32(p *uint32, d uint32) uint32 {
 	point("add")
+	sync(unsafe.Pointer(p))
 	*p += d
 	vrt.AbsorbInt(int64(*p))
 	return *p
 }
 func CompareAndSwapUint32(p *uint32, o, n uint32) bool {
 	point("cas")
+	sync(unsafe.Pointer(p))
 	if *p == o {
 		*p = n
 		vrt.AbsorbInt(1)
@@ -191,10 +294,16 @@ func CompareAndSwapUint32(p *uint32, o, n uint32) bool {
 	vrt.AbsorbInt(0)
 	return false
 }
-func LoadUint64(p *uint64) uint64     { point("load"); vrt.AbsorbInt(int64(*p)); return *p }
-func StoreUint64(p *uint64, v uint64) { point("store"); *p = v }
+func LoadUint64(p *uint64) uint64 {
+	point("load")
+	sync(unsafe.Pointer(p))
+	vrt.AbsorbInt(int64(*p))
+	return *p
+}
+func StoreUint64(p *uint64, v uint64) { point("store"); sync(unsafe.Pointer(p)); *p = v }
 func AddUint64(p *uint64, d uint64) uint64 {
 	point("add")
+	sync(unsafe.Pointer(p))
 	*p += d
 	vrt.AbsorbInt(int64(*p))
 	return *p
